@@ -234,6 +234,7 @@ type interp struct {
 	pending []pdf.Reference
 	high    int
 	shared  pdf.Dict
+	bigDone bool
 }
 
 func (in *interp) pick(n int, label string) int {
@@ -370,6 +371,10 @@ func Exec(cfg Config, c *explore.Ctx, maxOps int, env *Env) (res *Result) {
 		kinds := []string{"end", "alloc", "put", "stream", "putstream"}
 		if env == nil || !env.NoCompressed {
 			kinds = append(kinds, "wc1", "wc2")
+			if nOps == 0 {
+				// the big object stream is offered as first operation only
+				kinds = append(kinds, "wcbig")
+			}
 		}
 		k := in.c.Choose(len(kinds), "op")
 		kind := kinds[k]
@@ -417,6 +422,25 @@ func Exec(cfg Config, c *explore.Ctx, maxOps int, env *Env) (res *Result) {
 			}
 			for i := range refs {
 				res.Objs[refs[i]] = hx.Clone(vals[i])
+				res.InObjStm[refs[i]] = true
+			}
+		case "wcbig":
+			// one object stream with more members than one byte can index
+			in.bigDone = true
+			const n = 300
+			refs := make([]pdf.Reference, n)
+			vals := make([]pdf.Object, n)
+			for i := range refs {
+				refs[i] = w.Alloc()
+				vals[i] = pdf.Integer(1000 + i)
+			}
+			res.Ops = append(res.Ops, fmt.Sprintf("WriteCompressed(%d objects %v..%v)", n, refs[0], refs[n-1]))
+			if err := w.WriteCompressed(refs, vals...); err != nil {
+				in.fail(err, "WriteCompressed")
+				return res
+			}
+			for i := range refs {
+				res.Objs[refs[i]] = vals[i]
 				res.InObjStm[refs[i]] = true
 			}
 		case "putstream":
